@@ -381,7 +381,7 @@ theorem machineStep_decw (k : TaskKey) (idx : Nat) (ev : Event) (c : Cond) (hd :
 theorem ensureRecord_cmd_next (k : TaskKey) (s0 : Option Staged) (r0 : Option Nat) (ev : Event) (c c1 : Cond)
     (idx : Nat) (hcmd : isCmdName k.1 = true) (h : ensureRecord E k s0 r0 ev c = (.ok idx, c1)) :
     ∃ r, c1.st.sequence[idx]? = some r ∧ r.next = [] := by
-  unfold ensureRecord at h
+  unfold ensureRecord firstRecord recordFromStaged at h
   obtain ⟨i, c', h1, h2⟩ := M.bind_ok h
   have h1' : ∃ sx : Staged, addTaskState E (k.1, sx.route) sx.ctxsIn sx.prev c = (.ok i, c') := by
     cases r0 <;> simp only [hcmd] at h1 <;> (cases s0 with
